@@ -179,4 +179,17 @@ CLAIMED = {
         note="Not decided: byte equality of the file before/after (runtime). Fix commit for the header rewrite on read-only open is recorded in known_findings. Untriaged candidates "
              "(reported, not verdicts): footer realignment reachable from search/open_read_only via init_tantivy; begin_batch writes without a guard.",
         design_ref="DESIGN.md §4 C18"),
+    "C32": dict(
+        technique="call-graph cycle analysis with guarded-edge removal (depth guard = counter-vs-constant comparison + InvalidQuery + increment), precedence-ladder call layering, enum-arm table for Expr::evaluate",
+        text="Partial: every recursion cycle among the functions reachable from parse_query is cut by a depth guard, the OR/AND/NOT consumers call each other in precedence order, "
+             "and Expr::evaluate maps Or/And/Not/Term to any/all/negation/delegation.",
+        note="Not decided: substring/phrase/field matching semantics (values), tokenizer totality. The rule found a genuine defect (unbounded recursion), repaired by fix commit 8cd7524.",
+        design_ref="DESIGN.md §4 C32"),
+    "C22": dict(
+        technique="two Engler-style checkers over the 900+ functions reachable from the untrusted-input entry points: explicit-assertion reachability (macro provenance) and range check of file-derived allocation sizes",
+        text="Partial: no explicit assertion macro is reachable from open/verify/doctor/read entry points except reviewed sites; every allocation sized by a file-derived integer is "
+             "bounded by a constant, the file length, a clamp or a validator on its path.",
+        note="Not decided: panic-freedom of indexing/arithmetic sites, termination. The rule found a genuine defect (doctor debug_assert on pending WAL records), repaired by fix commit 706186b. "
+             "Untriaged candidate: debug_assert_eq on vector lengths in simd (debug builds only).",
+        design_ref="DESIGN.md §4 C22"),
 }
